@@ -49,8 +49,7 @@ Definition mk_cell (t : option Q * Q * Q) : cell :=
 Definition chk_noise_scalar (c : list (option Q * Q * Q) * Z * Q * Q) : bool :=
   let '(cells, out, post, sl) := c in
   let cs := map mk_cell cells in
-  agree gen_noise_tol (noise_scalar_var gen_scalar_s2_masked cs)
-        (noise_scalar_rule gen_noise_tol gen_scalar_s2_masked cs) out (post * post) sl.
+  agree gen_noise_tol (noise_scalar_var cs) (noise_scalar_rule gen_noise_tol cs) out (post * post) sl.
 
 Definition chk_noise_diag (c : nat * list (list (option Q * Q * Q)) * Z * list Q * Q) : bool :=
   let '(nft, rows, out, post, sl) := c in
